@@ -17,7 +17,7 @@ ASSUMPTIONS = [
     "a caller outside the analysed files that mutates a returned cached object is not seen (all in-package callers are analysed)",
 ]
 NOT_DECIDED = ["bit-identity of results across cache regimes for ALL programs: only the bounded relational run (tools/cache_relational.py: 30 configurations with "
-               "coinciding layouts x 16 operations x 7 regimes) -- not a proof; the proof part is R/W/O/K on the memoised functions"]
+               "coinciding layouts x 17 operations x 7 regimes) -- not a proof; the proof part is R/W/O/K on the memoised functions"]
 
 SCOPE = FILES
 
@@ -58,6 +58,87 @@ def key_obligations(obligations, details):
     oid = "K::key-components-observed"
     obligations[oid] = 'proved' if len(kinds) >= 20 else 'undecided'
     details[oid] = f"{len(kinds)} (function, argument) key components observed"
+
+
+def _paths(expr, defs, params, depth=0, seen=None):
+    """ access paths (parameter.attr.attr...) an expression depends on; local names are expanded through their assignments """
+    seen = set() if seen is None else seen
+    out = set()
+
+    def chain(n):
+        parts = []
+        while isinstance(n, ast.Attribute):
+            parts.append(n.attr)
+            n = n.value
+        return (n.id, tuple(reversed(parts))) if isinstance(n, ast.Name) else (None, ())
+
+    def visit(n, is_func=False):
+        if isinstance(n, ast.Attribute):
+            root, parts = chain(n)
+            if root is not None:
+                if is_func:
+                    parts = parts[:-1]                     # a.config.sym.zero() depends on a.config.sym
+                add(root, parts)
+                return
+        if isinstance(n, ast.Name):
+            add(n.id, ())
+            return
+        if isinstance(n, ast.Call):
+            visit(n.func, True)
+            for a in n.args:
+                visit(a.value if isinstance(a, ast.Starred) else a)
+            for k in n.keywords:
+                visit(k.value)
+            return
+        for c in ast.iter_child_nodes(n):
+            visit(c)
+
+    def add(root, parts):
+        if root in params:
+            out.add((root,) + parts)
+        elif root in defs and (root, parts) not in seen and depth < 6:
+            seen.add((root, parts))
+            for d in defs[root]:
+                out.update(_paths(d, defs, params, depth + 1, seen))
+
+    visit(expr)
+    return out
+
+
+def memo_key_analysis(f, lineno, rootname):
+    """
+    for a store  D[key] = value  (or D.setdefault(key, value)) into process-wide state D: the access paths of the arguments that
+    `value` depends on but `key` does not determine.  None: the site is not of that shape.
+    """
+    defs = {}
+    for n in ast.walk(f.node):
+        if isinstance(n, ast.Assign):
+            for t in n.targets:
+                for e in (t.elts if isinstance(t, (ast.Tuple, ast.List)) else [t]):
+                    if isinstance(e, ast.Name):
+                        defs.setdefault(e.id, []).append(n.value)
+        elif isinstance(n, (ast.AugAssign, ast.AnnAssign)) and isinstance(n.target, ast.Name) and n.value is not None:
+            defs.setdefault(n.target.id, []).append(n.value)
+        elif isinstance(n, (ast.For, ast.comprehension)) and isinstance(n.target, ast.Name):
+            defs.setdefault(n.target.id, []).append(n.iter)
+    key = val = None
+    for n in ast.walk(f.node):
+        if getattr(n, 'lineno', None) != lineno:
+            continue
+        if isinstance(n, ast.Assign):
+            for t in n.targets:
+                if isinstance(t, ast.Subscript) and isinstance(t.value, ast.Name) and t.value.id == rootname:
+                    key, val = t.slice, n.value
+        elif isinstance(n, ast.Call) and isinstance(n.func, ast.Attribute) and isinstance(n.func.value, ast.Name) and n.func.value.id == rootname \
+                and n.func.attr in ('setdefault', '__setitem__') and len(n.args) == 2:
+            key, val = n.args
+    if key is None:
+        return None
+    params = set(f.params)
+    kp = _paths(key, defs, params)
+    vp = _paths(val, defs, params)
+    missing = sorted('.'.join(p) for p in vp if not any(p[:len(k)] == k for k in kp))
+    return missing
 
 
 def relational_obligations(root, obligations, details):
@@ -139,6 +220,58 @@ def run_check(args, seed):
                 oid = f"{f.key}::W writes module state {s.root}"
                 obligations[oid] = 'failed'
                 details[oid] = f"{f.filename}:{s.lineno}: {s.what}"
+    # ---- S: no state survives a call outside the administered caches ---------------------------------------------
+    # ("the result ... depends only on its arguments and configuration, never on which operations ran earlier"): a store into a
+    # module-level object, a rebinding through `global`, or a store into a class object from a classmethod is a hand-made memo
+    # that clear_cache()/set_cache_maxsize() do not reach and whose key nobody checks.  Allowed: the cache administration
+    # rebinding the memoised functions, and the seeding of the random generator (the documented input of rand*).
+    import glob
+    sym_files = sorted(os.path.relpath(x, root) for x in glob.glob(os.path.join(root, 'yastn/sym/*.py')))
+    F_sym = analyse(root, files=sym_files)[0] if sym_files else []
+    administered = {f.name for f in cached_funcs}
+    n_state = n_undec = 0
+    for f in list(F) + list(F_sym):
+        if f.filename not in mod_info:
+            mod_info[f.filename] = frame.module_globals_info(root, f.filename)
+        binds, rebound = mod_info[f.filename]
+        for s in f.sites:
+            hidden = None
+            if s.val.kind == 'global':
+                if s.what.startswith('call .') and set(binds.get(s.root, ())) <= {'import'} and s.root in binds:
+                    continue                                        # a function of an imported module (np.insert), not a method of a container
+                if f.key == 'yastn.tensor._control_lru:set_cache_maxsize' and s.what.startswith('store .') and s.what[len('store .'):] in administered:
+                    continue
+                if f.name == 'random_seed':
+                    continue
+                hidden = f"module-level object {s.root}"
+            elif s.val.kind in ('borrowed', 'maybe-borrowed') and f.params and f.params[0] == 'cls' and s.val.src == 0:
+                hidden = "the class object"
+            if hidden:
+                n_state += 1
+                oid = f"{f.key}::S {s.what} keeps state in {hidden} across calls"
+                missing = memo_key_analysis(f, s.lineno, s.root) if s.val.kind == 'global' else None
+                if missing:
+                    # a memo whose key does not determine the stored value: a later call with the same key and different arguments gets it
+                    obligations[oid] = 'failed'
+                    details[oid] = (f"{f.filename}:{s.lineno}: hand-made memo outside the administered lru caches; the stored value depends on "
+                                    f"{', '.join(missing)}, which the key does not determine")
+                else:
+                    # state we cannot show to be keyed by everything it depends on: not a proof of a violation either
+                    obligations[oid] = 'undecided'
+                    n_undec += 1
+                    details[oid] = (f"{f.filename}:{s.lineno}: state outside the administered lru caches survives the call (not reached by "
+                                    f"clear_cache/set_cache_maxsize); key adequacy " + ("not analysable at this site" if missing is None else "not refuted"))
+    for fn_, (binds, rebound) in sorted(mod_info.items()):
+        for name in sorted(rebound):
+            n_state += 1
+            oid = f"{fn_}::S module-level name {name} is rebound through a global declaration"
+            n_undec += 1
+            obligations[oid] = 'undecided'
+            details[oid] = 'process-wide state outside the administered caches'
+    oid = "S::no-state-survives-a-call-outside-the-administered-caches"
+    obligations[oid] = ('failed' if n_state > n_undec else 'undecided') if n_state else 'proved'
+    details[oid] = f"{len(F) + len(F_sym)} functions in {len(SCOPE) + len(sym_files)} files: stores into module-level objects only in set_cache_maxsize (memoised functions) and random_seed" \
+        if not n_state else f"{n_state} store site(s) into process-wide state"
     # ---- O: nobody writes into a returned cached value ---------------------------------------------------------
     for f in F:
         n = 0
